@@ -88,8 +88,29 @@ pub fn state_json(fxr: &FXRates, names: &[String], _r: &mut Rng) -> Value {
     // a currency outside the market has no rate
     let outsider = Ccy::try_new("xxx").unwrap();
     let none_ok = fxr.rate(&outsider, &cc[0]).is_none() && fxr.rate(&cc[0], &outsider).is_none();
+    // the same market through the attributes and methods Python sees (rust/fx/rates_py.rs via the cfg-guarded hooks)
+    let py = match guard(|| -> Result<Value, String> {
+        use rateslib::verif::rates_py as rpy;
+        let v = rpy::view(fxr)?;
+        let arr: Vec<Value> = v.fx_array.iter().flat_map(|row| row.iter().map(|x| json!({"re": fj(number_re(x)), "g": fvec(&grad1(x, names)), "k": number_kind(x)}))).collect();
+        let vecv: Vec<Value> = v.fx_vector.iter().map(|x| json!({"re": fj(number_re(x)), "g": fvec(&grad1(x, names)), "k": number_kind(x)})).collect();
+        let mut idx: Vec<i64> = v.currencies.iter().map(|c| rpy::get_ccy_index(fxr, *c).map(|i| i as i64).unwrap_or(-1)).collect();
+        idx.push(rpy::get_ccy_index(fxr, outsider).map(|i| i as i64).unwrap_or(-1));
+        let mut rates = vec![];
+        for a in v.currencies.iter() {
+            for b in v.currencies.iter() {
+                let x = rpy::rate(fxr, a, b)?.ok_or("no rate")?;
+                rates.push(json!({"re": fj(number_re(&x)), "g": fvec(&grad1(&x, names)), "k": number_kind(&x)}));
+            }
+        }
+        let pq: Vec<Value> = v.fx_rates.iter().map(|q| { let (p, n_, a, st) = rpy::quote_view(q).unwrap();
+            json!({"pair": p, "v": fj(number_re(&n_)), "ad": a, "settle": st.map(|d| nd(&d)).unwrap_or(0)}) }).collect();
+        Ok(json!({"ccys": v.currencies.iter().map(rateslib::verif::ccy_name).collect::<Vec<_>>(), "base": rateslib::verif::ccy_name(&v.base), "ad": v.ad,
+                  "array": arr, "vector": vecv, "rate": rates, "idx": idx, "quotes": pq,
+                  "outsider_none": rpy::rate(fxr, &outsider, &v.base)?.is_none(), "copy_eq": rpy::eq(fxr, rpy::copy(fxr))}))
+    }) { Outcome::Ok(Ok(v)) => v, Outcome::Ok(Err(e)) => json!({"fail": e}), Outcome::Panic(_) => json!({"fail": "panic"}) };
     json!({"ccys": ccys, "order": order, "names": names, "re": re, "g": g, "kinds": kinds, "vars": present, "hp": hp, "h": h,
-           "quotes": quotes, "unknown_none": none_ok})
+           "quotes": quotes, "unknown_none": none_ok, "py": py})
 }
 
 fn try_new(quotes: &[Quote], base: &Option<String>) -> Outcome<Result<FXRates, String>> {
